@@ -26,6 +26,7 @@ struct Problem
   double precond = 0;              // 0: none, else isotropic scale applied to both sets
   bool aligned = false;            // use the aligned overload (identity correspondences over all stored points)
   bool reusedSets = false;         // the PreconditionedPointSet objects held a larger, unrelated set before
+  bool assignedSets = false;       // ... and receive the new content by copy assignment instead of compute()
   int cloudMode = 0;
   double spread2 = 1, spread3 = 1; // s2/s1, s3/s1 of the centred used source points
 };
@@ -94,7 +95,7 @@ Problem genProblem(vf::Ctx & c, int D)
     size_t m = c.s.pick("cloud_mode2d", {5, 2, 1, 1});
     pb.cloudMode = m == 0 ? 0 : m == 1 ? 1 : m == 2 ? 5 : 6;
   }
-  pb.size = c.s.rlog("size", 1e-2, 1e3);
+  pb.size = c.s.rlog("size", 1e-8, 1e3);   // from sub-micrometre objects to kilometres: the statement is scale free
   double thickness = (pb.cloudMode == 4) ? std::pow(10.0, -c.s.uni("thickness_exp", 3.0, 12.0)) : 0.0;
   size_t ak = c.s.pick("angle_class", {1, 1, 1, 5});
   double angle = ak == 0 ? 0.0 : ak == 1 ? M_PI / 2 : ak == 2 ? M_PI : c.s.uni("angle", -M_PI, M_PI);
@@ -219,8 +220,15 @@ MatrixXd runLibrary(const Problem & pb)
       ps.compute(big, static_cast<S>(0.125), tv);
       pt.compute(big, static_cast<S>(0.125), tv);
     }
-    ps.compute(src, static_cast<S>(pb.precond));
-    pt.compute(tgt, static_cast<S>(pb.precond));
+    if (pb.reusedSets && pb.assignedSets) {
+      // value semantics: assigning a freshly preconditioned set into a used holder must carry everything over
+      ps = PreconditionedPointSet<PT>(src, static_cast<S>(pb.precond));
+      PreconditionedPointSet<PT> tmp(tgt, static_cast<S>(pb.precond));
+      pt = tmp;
+    } else {
+      ps.compute(src, static_cast<S>(pb.precond));
+      pt.compute(tgt, static_cast<S>(pb.precond));
+    }
     H = pb.aligned ? est.find(ps, pt) : est.find(ps, pt, corr);
   } else {
     H = pb.aligned ? est.find(src, tgt) : est.find(src, tgt, corr);
@@ -325,6 +333,8 @@ void svdBody(vf::Ctx & c)
   c.label(typeName(D, type));
   pb.reusedSets = c.s.flag("preconditioned_sets_reused");
   if (pb.reusedSets && pb.precond != 0) {c.label("preconditioned-set-objects-reused");}
+  pb.assignedSets = c.s.flag("preconditioned_sets_copy_assigned", 1, 3);
+  if (pb.reusedSets && pb.assignedSets && pb.precond != 0) {c.label("preconditioned-sets-copy-assigned-into-used-holders");}
   c.commit();
 
   MatrixXd Rref;
